@@ -40,6 +40,7 @@ def generate(seed, tier, prop):
         "k": r.choice(ks),
         "lr": r.choice([1e-3, 0.1, 1.0]),
         "time": False,
+        "call_form": r.choice(["keyword", "keyword", "positional"]),
     }
     nb = ceil(N / pos)
     total = 2 + epochs * (2 + 2 * nb)
